@@ -146,9 +146,24 @@ func List() [][]byte {
 func ListByEpoch(epoch int) [][]byte {
 	ctx := storage.GetReadOnlyContext()
 	var buf any = epoch
-	it := storage.Find(ctx, buf.([]byte), storage.KeysOnly)
+	prefix := buf.([]byte)
+	it := storage.Find(ctx, prefix, storage.KeysOnly)
 
-	return list(it)
+	// The epoch is stored in its variable-length form, so the prefix of one
+	// epoch (1 = 0x01) also matches keys of other epochs (257 = 0x0101).
+	// The rest of the key has a fixed size, which tells them apart.
+	ln := len(prefix) + interop.Hash256Len + maxKeySize
+
+	var result [][]byte
+
+	for iterator.Next(it) {
+		key := iterator.Value(it).([]byte) // iterator MUST BE `storage.KeysOnly`
+		if len(key) == ln {
+			result = append(result, key)
+		}
+	}
+
+	return result
 }
 
 // ListByCID method returns a list of DataAuditResult IDs generated during
